@@ -21,4 +21,11 @@ CHECKS = [
         "deterministic simulation: seeded schedule + fault (cache eviction / identity order) search with reference-model oracle, ddmin-minimised replay files",
         "DESIGN.md section 5",
     ),
+    _check(
+        "C03",
+        "Every one of the 694 catalogue modules is observed under the canonical history and under three digit-boundary counter placements inside its own allocation (systematic part), then a seeded search over histories (real imports in random order incl. dependents-first, real creations, forward counter jumps to L*10^d-j for SYM/FUN/QTY, cache evictions, calculate_* use, 4 zygote configurations of hash seed x cache size) observes 1-3 target modules per run. Oracle: import succeeds; numeric meaning fingerprints of every published equation, symbol metadata and every returning calculate_* outcome equal those of the same tree under the canonical history. Sampling over histories, exhaustive over modules for the systematic placements.",
+        "Self-differential: the reference is the same tree in a fresh process; a behaviour that is wrong in every history is invisible except for import failure. Jump == bulk creation is sample-tested. Trusted: CPython import/fork, SymPy N/subs/doit inside the fingerprint.",
+        "deterministic simulation: seeded history (import order / counter state / cache eviction) search against the canonical-history run of the same code, ddmin-minimised replay files",
+        "DESIGN.md section 3",
+    ),
 ]
